@@ -8,9 +8,6 @@ namespace AgdbSearch
 /-- Weight of a work item: a node item 1; an edge item 1 + the number of edges from it to the end of its chain. -/
 def itemW (V : View) (si : SI) : Nat := if 0 < si.idx then 1 else (chain V si.idx).length + 1
 
-/-- Weight of a not yet visited element: a node pays for its whole chain, an edge for its target. -/
-def elemW (V : View) (x : Int) : Nat := if 0 < x then (V.succ x).length + 1 else 1
-
 def workW (V : View) (l : List SI) : Nat := (l.map (itemW V)).sum
 
 def unvisW (V : View) : List Int → List Int → Nat
